@@ -1,0 +1,39 @@
+//! Observation hooks for external verification harnesses.
+//!
+//! Only compiled with `--cfg virtio_drivers_verif`. The hooks carry no payload and change no
+//! behaviour: a harness installs plain function pointers which are called from the busy-wait loops
+//! of the blocking helpers (`spin`) and after each store to device-visible queue memory (`stored`).
+
+use core::sync::atomic::{AtomicUsize, Ordering};
+
+static SPIN_HOOK: AtomicUsize = AtomicUsize::new(0);
+static STORE_HOOK: AtomicUsize = AtomicUsize::new(0);
+
+/// Installs (or removes) the function called on every iteration of a busy-wait loop.
+pub fn set_spin_hook(hook: Option<fn()>) {
+    SPIN_HOOK.store(hook.map_or(0, |f| f as usize), Ordering::SeqCst);
+}
+
+/// Installs (or removes) the function called after every device-visible store of the virtqueue.
+pub fn set_store_hook(hook: Option<fn()>) {
+    STORE_HOOK.store(hook.map_or(0, |f| f as usize), Ordering::SeqCst);
+}
+
+fn call(slot: &AtomicUsize) {
+    let raw = slot.load(Ordering::SeqCst);
+    if raw != 0 {
+        // SAFETY: The only non-zero values ever stored in the slot are `fn()` pointers.
+        let f: fn() = unsafe { core::mem::transmute::<usize, fn()>(raw) };
+        f();
+    }
+}
+
+/// Called from inside busy-wait loops.
+pub fn spin() {
+    call(&SPIN_HOOK);
+}
+
+/// Called after each store to device-visible queue memory.
+pub fn stored() {
+    call(&STORE_HOOK);
+}
